@@ -30,16 +30,20 @@ import (
 type feeOpt struct {
 	name string
 	coin *sdk.Coin // nil = unset
+	// raw, if set, is how the amount is SPELLED in a genesis document (a message cannot carry a spelling)
+	raw string
 }
 
 var c18Fees = []feeOpt{
-	{"unset", nil},
-	{"0uregen", &sdk.Coin{Denom: "uregen", Amount: sdk.NewInt(0)}},
-	{"1uregen", &sdk.Coin{Denom: "uregen", Amount: sdk.NewInt(1)}},
-	{"20000000uregen", &sdk.Coin{Denom: "uregen", Amount: sdk.NewInt(20000000)}},
-	{"5stake", &sdk.Coin{Denom: "stake", Amount: sdk.NewInt(5)}},
+	{"unset", nil, ""},
+	{"0uregen", &sdk.Coin{Denom: "uregen", Amount: sdk.NewInt(0)}, ""},
+	{"1uregen", &sdk.Coin{Denom: "uregen", Amount: sdk.NewInt(1)}, ""},
+	{"20000000uregen", &sdk.Coin{Denom: "uregen", Amount: sdk.NewInt(20000000)}, ""},
+	{"5stake", &sdk.Coin{Denom: "stake", Amount: sdk.NewInt(5)}, ""},
+	// a zero amount that a hand-written genesis spells with two digits
+	{"00uregen(genesis spelling of zero)", &sdk.Coin{Denom: "uregen", Amount: sdk.NewInt(0)}, "00"},
 	// 2 x 10^19: a fee of 20 tokens of an 18-decimals denom does not fit into 64 bits
-	{"20000000000000000000uregen", &sdk.Coin{Denom: "uregen", Amount: sdk.NewIntFromUint64(10000000000000000000).MulRaw(2)}},
+	{"20000000000000000000uregen", &sdk.Coin{Denom: "uregen", Amount: sdk.NewIntFromUint64(10000000000000000000).MulRaw(2)}, ""},
 }
 
 // the last one: the creator is added, the list switched on, off and on again (a governance change reverted)
@@ -116,7 +120,11 @@ func (c c18cfg) patchGenesis(d scen.GenDoc) {
 		if f.coin == nil {
 			return map[string]interface{}{"fee": nil}
 		}
-		return map[string]interface{}{"fee": map[string]string{"denom": f.coin.Denom, "amount": f.coin.Amount.String()}}
+		amt := f.coin.Amount.String()
+		if f.raw != "" {
+			amt = f.raw
+		}
+		return map[string]interface{}{"fee": map[string]string{"denom": f.coin.Denom, "amount": amt}}
 	}
 	d.Set("regen.ecocredit.v1.ClassFee", fee(c18Fees[c.classFee]))
 	d.Set("regen.ecocredit.basket.v1.BasketFee", fee(c18Fees[c.basketFee]))
@@ -533,7 +541,7 @@ func init() {
 		o := runner.New("C18", tier, "model_checking")
 		o.Assumptions = []string{
 			"trusted base and composition as for the Engine A checks",
-			"configuration alphabet: class/basket fee in {unset, 0uregen, 1uregen, 20000000uregen, 5stake, 2x10^19 uregen (beyond 64 bits)}; allowlist {off, on+empty, on+creator}; credit types C and (three letters, added through governance) BIO, each with a basket; allowed denoms {none, uregen, uregen+ibc voucher, uregen+ibc voucher+mixed-case denom+stake}; buyer and seller fee rate each in " + fmt.Sprintf("%q", c18Rates),
+			"configuration alphabet: class/basket fee in {unset, 0uregen, 1uregen, 20000000uregen, 5stake, 2x10^19 uregen (beyond 64 bits), zero spelled 00 in genesis}; allowlist {off, on+empty, on+creator}; credit types C and (three letters, added through governance) BIO, each with a basket; allowed denoms {none, uregen, uregen+ibc voucher, uregen+ibc voucher+mixed-case denom+stake}; buyer and seller fee rate each in " + fmt.Sprintf("%q", c18Rates),
 			"acceptance paths: (msg) governance messages through ValidateBasic + handler from the prepared state; (genesis) Module.ValidateGenesis + InitGenesis of the prepared state's export with the parameter tables replaced",
 			"an operation's own preconditions: creator funded, allow-listed when the allowlist is on, offering at least the fee; seller holds credits and asks in an allowed denom; buyer funded, bid = ask, max fee far above the buyer fee",
 		}
